@@ -354,11 +354,11 @@ def parse_vc(path):
             cur.rewrites.append((args[0], int(opts.get('count', 1)), fp[0], fp[1], lno))
         elif d == '@outline':
             fp, i = take_fenced(i)   # fragment === signature === call
-            if len(fp) not in (3, 4):
+            if len(fp) not in (3, 4, 5):
                 raise Undecided('%s:%d: @outline needs fragment === signature === call [=== tail]' % (rel, lno))
             t, l, i = take_block(i)
-            cur.outlines.append({'id': args[0], 'fragment': fp[0], 'sig': fp[1], 'call': fp[2], 'tail': fp[3] if len(fp) == 4 else '',
-                                 'spec': t, 'line': l, 'count': int(opts.get('count', 1)), 'allow_panic': opts.get('allow_panic') == 'yes'})
+            cur.outlines.append({'id': args[0], 'fragment': fp[0], 'sig': fp[1], 'call': fp[2], 'tail': fp[3] if len(fp) >= 4 else '', 'head': fp[4] if len(fp) == 5 else '',
+                                 'spec': t, 'line': l, 'count': int(opts.get('count', 1)), 'wrap': opts.get('wrap')})
         elif d == '@sig':
             fp, i = take_fenced(i)
             cur.sigmap.append((fp[0], fp[1]))
@@ -469,8 +469,9 @@ def weave_fn(src, loc, fc, origins, as_stub=False, canary=None):
                 ot.replace(a, b, ol['call'].strip(), o)
             if re.search(r'\bunwrap\b|\bexpect\b|\bpanic\b|\bunreachable\b|\bunimplemented\b', frag_src):
                 raise Undecided('%s: outlined fragment %s contains a panic-capable call' % (what, ol['id']))
-            outlined_text.append('#[verifier::external_body]\n%s\n%s\n{\n%s\n%s\n}\n' % (
-                ol['sig'].strip(), ol['spec'], frag_src, ol.get('tail', '')))
+            body_src = ('Ok(\n%s\n)' % frag_src) if ol.get('wrap') == 'ok' else frag_src
+            outlined_text.append('#[verifier::external_body]\n%s\n%s\n{\n%s\n%s\n%s\n}\n' % (
+                ol['sig'].strip(), ol['spec'], ol.get('head', ''), body_src, ol.get('tail', '')))
             info['outlined'].append({'rule': ol['id'], 'fragment': frag_src, 'assumed_contract': ol['spec'].strip()})
         body_rel = _body_open(ot)
 
